@@ -24,7 +24,7 @@ type PanicInfo struct {
 	Site string // innermost libvore frame: function:line
 }
 
-var frameRe = regexp.MustCompile(`(?m)^(github\.com/jmeaster30/vore/[^\s(]+)\(.*\)?\n\s+(\S+):(\d+)`)
+var frameRe = regexp.MustCompile(`(?m)^(github\.com/jmeaster30/vore/.+)\(.*\)\s*\n\s+(\S+):(\d+)`)
 
 func panicSite() string {
 	buf := make([]byte, 16384)
